@@ -1,0 +1,65 @@
+//go:build verif
+
+package fzf
+
+import "github.com/junegunn/fzf/src/tui"
+
+// Verification hooks (build tag verif): thin exported wrappers around the
+// unexported ANSI functions of ansi.go. No logic, only flattening of the
+// unexported ansiState / ansiOffset types into plain exported structs.
+
+type VerifAnsiState struct {
+	Fg, Bg, Attr, Lbg int
+	HasURL            bool
+	URI, Params       string
+}
+
+type VerifAnsiOffset struct {
+	Begin, End int
+	Color      VerifAnsiState
+}
+
+func verifFromState(s *ansiState) *VerifAnsiState {
+	if s == nil {
+		return nil
+	}
+	r := &VerifAnsiState{Fg: int(s.fg), Bg: int(s.bg), Attr: int(s.attr), Lbg: int(s.lbg)}
+	if s.url != nil {
+		r.HasURL, r.URI, r.Params = true, s.url.uri, s.url.params
+	}
+	return r
+}
+
+func verifToState(s *VerifAnsiState) *ansiState {
+	if s == nil {
+		return nil
+	}
+	r := &ansiState{fg: tui.Color(s.Fg), bg: tui.Color(s.Bg), attr: tui.Attr(s.Attr), lbg: tui.Color(s.Lbg)}
+	if s.HasURL {
+		r.url = &url{uri: s.URI, params: s.Params}
+	}
+	return r
+}
+
+func VerifNextAnsi(s string) (int, int) { return nextAnsiEscapeSequence(s) }
+
+func VerifInterpretCode(code string, prev *VerifAnsiState) VerifAnsiState {
+	st := interpretCode(code, verifToState(prev))
+	return *verifFromState(&st)
+}
+
+func VerifParseAnsiCode(s string) (int, string) { return parseAnsiCode(s) }
+
+func VerifExtractColor(str string, state *VerifAnsiState) (string, []VerifAnsiOffset, bool, *VerifAnsiState) {
+	trimmed, offsets, newState := extractColor(str, verifToState(state), nil)
+	if offsets == nil {
+		return trimmed, nil, false, verifFromState(newState)
+	}
+	out := make([]VerifAnsiOffset, len(*offsets))
+	for i, o := range *offsets {
+		out[i] = VerifAnsiOffset{int(o.offset[0]), int(o.offset[1]), *verifFromState(&o.color)}
+	}
+	return trimmed, out, true, verifFromState(newState)
+}
+
+func VerifAnsiStateToString(s *VerifAnsiState) string { return verifToState(s).ToString() }
